@@ -8,7 +8,7 @@
 (*  "sub"  : x, y and the observed add(sub(x,y), y)                           *)
 (*  "fromint": n and observed from_int(n)                                    *)
 (*  "sum"  : a vector and its observed sum / add_ fold                        *)
-EXTENDS Semiring
+EXTENDS Semiring, Binade
 VARIABLE tid
 Cases == JsonDeserialize("cases.json")
 Init == tid \in 1..Len(Cases)
@@ -16,6 +16,46 @@ Next == UNCHANGED tid
 
 In(v, iv) == iv[1] <= v /\ v <= iv[2]
 Op(sr, op, a, b) == IF op = "add" THEN SrAdd(sr, a, b) ELSE SrMul(sr, a, b)
+
+(* "bn": the whole floating-point range on powers of two (spec/Binade.tla): c.fam the semiring ("real", "log",   *)
+(* "vit"), c.f the format, c.op, operands c.x c.y c.z, observations c.r c.r2 (binade triples), c.eq (the two      *)
+(* sides of a law compared as floats), c.n, c.rmilli.                                                          *)
+BnVerdict(c) ==
+  LET f == c.f x == c.x y == c.y z == c.z r == c.r r2 == c.r2
+      mul(u, v) == IF c.fam = "real" THEN BnMulReal(f, u, v) ELSE BnMulLog(f, u, v)
+      zero == IF c.fam = "real" THEN BnZ ELSE BnInf(-1)
+      uj(v) == v.k = "unjudged"
+  IN
+  IF c.op = "mul" THEN (IF uj(mul(x, y)) \/ BnSame(r, mul(x, y)) THEN "ok" ELSE "MulEqualsCarrierMul")
+  ELSE IF c.op = "mul_comm_assoc" THEN
+       \* r = (x*y)*z, r2 = x*(y*z), both judged only if every partial product stays inside the format
+       LET xy == mul(x, y) yz == mul(y, z) IN
+       IF uj(xy) \/ uj(yz) THEN "ok"
+       ELSE LET l == mul(xy, z) rr == mul(x, yz) IN
+            IF uj(l) \/ uj(rr) THEN "ok"
+            ELSE IF c.fam # "real" /\ ~(BnSumExact(x, y) /\ BnSumExact(y, z) /\ BnSumExact(xy, z) /\ BnSumExact(x, yz)) THEN "ok"   \* rounding: no claim
+            ELSE IF ~BnSame(r, l) \/ ~BnSame(r2, rr) \/ ~BnSame(l, rr) THEN "MulAssociative" ELSE "ok"
+  ELSE IF c.op = "add" THEN
+       (IF c.fam = "real" THEN (IF uj(BnAddReal(f, x, y)) \/ (BnSame(r, BnAddReal(f, x, y)) /\ BnSame(r2, BnAddReal(f, x, y))) THEN "ok" ELSE "AddEqualsCarrierAdd")
+        ELSE IF c.fam = "vit" THEN (IF BnSame(r, BnMaxSigned(x, y)) /\ BnSame(r2, BnMaxSigned(x, y)) THEN "ok" ELSE "AddEqualsCarrierAdd")
+        ELSE (IF BnLogAddOK(f, x, y, r) /\ BnLogAddOK(f, y, x, r2) /\ BnSame(r, r2) THEN "ok" ELSE "AddEqualsCarrierAdd"))
+  ELSE IF c.op = "distrib" THEN
+       \* Real, powers of two, y + z exact (exponents closer than the mantissa) and everything in range: x(y+z) = xy + xz exactly
+       LET s == BnAddReal(f, y, z) IN
+       IF x.k # "b" \/ y.k # "b" \/ z.k # "b" \/ uj(s) \/ BAbs(y.e - z.e) >= f.mant - 1 THEN "ok"
+       ELSE IF ~BnInRange(f, x.e + BMin(y.e, z.e)) \/ ~BnInRange(f, x.e + s.e + 1) THEN "ok"
+       ELSE IF ~c.eq \/ r.k # "b" \/ r.e # x.e + s.e \/ r.p # s.p THEN "Distributive" ELSE "ok"
+  ELSE IF c.op = "ident" THEN (IF BnSame(r, x) /\ BnSame(r2, x) THEN "ok" ELSE "Identities")              \* x + 0, x * 1
+  ELSE IF c.op = "annih" THEN (IF BnSame(r, zero) /\ BnSame(r2, zero) THEN "ok" ELSE "ZeroAnnihilates")    \* x * 0, 0 * x
+  ELSE IF c.op = "sub" THEN (IF BnSame(r, x) THEN "ok" ELSE "SubThenAddRestores")                           \* (x - y) + y, y <= x
+  ELSE IF c.op = "star" THEN
+       (IF c.fam = "real" THEN (IF BnStarRealPow(f, x, r) THEN "ok" ELSE "StarIsLeastSolution")
+        ELSE IF c.fam = "vit" THEN (IF BnStarVit(x, r) THEN "ok" ELSE "StarIsLeastSolution")
+        ELSE (IF BnStarLogPow(f, x, r) THEN "ok" ELSE "StarIsLeastSolution"))
+  ELSE IF c.op = "star_om" THEN
+       (IF c.fam = "real" THEN (IF BnStarRealOm(c.n, r) THEN "ok" ELSE "StarIsLeastSolution")
+        ELSE (IF BnStarLogOm(c.n, c.rmilli) THEN "ok" ELSE "StarIsLeastSolution"))
+  ELSE "UnknownCase"
 
 Verdict(c) ==
   IF c.out # "ok" THEN "Raised"
@@ -45,6 +85,7 @@ Verdict(c) ==
   ELSE IF c.kind = "sum" THEN
      LET s == FoldLeft(LAMBDA acc, v: SrAdd(c.sr, acc, v), SrZero(c.sr), c.xs) IN
      IF ~In(s, c.sum) THEN "SumAgreesWithAdd" ELSE IF ~In(s, c.addfold) THEN "AddInPlaceAgreesWithAdd" ELSE "ok"
+  ELSE IF c.kind = "bn" THEN BnVerdict(c)
   ELSE "UnknownCase"
 
 Judge == LET c == Cases[tid] IN PrintT(ToJson([gtid |-> c.gtid, v |-> Verdict(c), tags |-> c.tag]))
